@@ -13,6 +13,7 @@ class Context:
         self._sub_cell_translations: Dict[str, List] = {}
         self._titles: Dict[str, int] = {}
         self._sheets_size: List[Dict[str, int]] = []
+        self._cells_in_progress: set = set()
 
     @property
     def __class_template(self) -> str:
